@@ -6,9 +6,10 @@ package main
 //            bounding box; everything else is outside the shape - stays affordable)
 //   readback the distance caches read back at large lattice indices (any packing / hashing of the
 //            index that aliases two lattice points returns another point's value)
-//   reuse    ONE renderer object renders several shapes in a row; every output must be the
-//            exhaustive evaluation of that shape's own lattice (a cache surviving between renders
-//            returns stale values)
+//   reuse    ONE renderer object renders several shapes in a row (same box, other boxes, boxes 10 times
+//            bigger and 4 times smaller, Info-only calls in between); every output must be the
+//            exhaustive evaluation of that shape's own lattice (a cache, cell size or level count
+//            surviving between calls gives stale values / another lattice)
 
 import (
 	"fmt"
@@ -344,6 +345,20 @@ func (st *state) reuse(sp *Spec, stratum string) {
 				return
 			}
 			s := &sk.Fn3{F: F.F, BB: bb}
+			{
+				// Info is what the output routines call right before Render; it must not depend on (nor leave
+				// behind anything for) other models
+				var fresh, used render.Render3 = render.NewMarchingCubesUniform(sp.Cells), u3
+				if o3 != nil {
+					fresh, used = render.NewMarchingCubesOctree(sp.Cells), o3
+				}
+				if a, b := used.Info(s), fresh.Info(s); a != b {
+					fail(fmt.Sprintf("Info returns %q, a fresh renderer object returns %q", a, b))
+				}
+				if it.InfoOnly {
+					continue
+				}
+			}
 			var got, ref []sdf.Triangle3
 			if o3 != nil {
 				rec := &sk.Recorder3{S: s}
@@ -383,6 +398,18 @@ func (st *state) reuse(sp *Spec, stratum string) {
 			return
 		}
 		s := &sk.Fn2{F: F.F, BB: bb}
+		{
+			var fresh, used render.Render2 = render.NewMarchingSquaresUniform(sp.Cells), u2
+			if q2 != nil {
+				fresh, used = render.NewMarchingSquaresQuadtree(sp.Cells), q2
+			}
+			if a, b := used.Info(s), fresh.Info(s); a != b {
+				fail(fmt.Sprintf("Info returns %q, a fresh renderer object returns %q", a, b))
+			}
+			if it.InfoOnly {
+				continue
+			}
+		}
 		var got, ref []sdf.Line2
 		if q2 != nil {
 			rec := &sk.Recorder2{S: s}
@@ -429,6 +456,16 @@ func (st *state) genReuse(rng *Rng, c *Ctx) {
 				Field: &sk.Field{Kind: "union", A: &sk.Field{Kind: "sphere", C: c2, R: 0.6}, B: &sk.Field{Kind: "sphere", C: []float64{c2[0] + 0.7, c2[1], c2[2]}, R: 0.4 + 0.2*rng.Float()}}}
 			sp := &Spec{Dim: 3, Path: "reuse", Renderer: rd, Cells: mc, Seq: []Spec{a, b, cc, a}}
 			st.reuse(sp, "reuse3/"+rd)
+			// models of very different absolute size, Info-only calls in between: D is 10 times, E a quarter of A
+			info := func(x Spec) Spec { x.InfoOnly = true; return x }
+			c3 := []float64{ctr[0] * 10, ctr[1]*10 + 3, ctr[2] * 10}
+			d := Spec{BBMin: []float64{c3[0] - 10, c3[1] - 7.5, c3[2] - 10}, BBMax: []float64{c3[0] + 10, c3[1] + 7.5, c3[2] + 10},
+				Field: &sk.Field{Kind: "diff", A: &sk.Field{Kind: "box", C: c3, H: []float64{8, 6, 7}}, B: &sk.Field{Kind: "sphere", C: []float64{c3[0] + 8, c3[1] + 6, c3[2]}, R: 5}}}
+			c4 := []float64{ctr[0] - 0.5, ctr[1] + 0.125, ctr[2]}
+			e := Spec{BBMin: []float64{c4[0] - 0.25, c4[1] - 0.25, c4[2] - 0.25}, BBMax: []float64{c4[0] + 0.25, c4[1] + 0.25, c4[2] + 0.25},
+				Field: &sk.Field{Kind: "sphere", C: c4, R: 0.125 + 0.1*rng.Float()}}
+			sp = &Spec{Dim: 3, Path: "reuse", Renderer: rd, Cells: mc, Seq: []Spec{info(d), a, d, e, info(a), cc, info(e), info(d), b}}
+			st.reuse(sp, "reuse3-sizes/"+rd)
 		}
 		for _, rd := range []string{"quadtree", "uniform"} {
 			mc := rng.Range(4, 60)
@@ -441,6 +478,15 @@ func (st *state) genReuse(rng *Rng, c *Ctx) {
 				Field: &sk.Field{Kind: "union", A: &sk.Field{Kind: "circle", C: c2, R: 0.6}, B: &sk.Field{Kind: "circle", C: []float64{c2[0] + 0.7, c2[1]}, R: 0.4 + 0.2*rng.Float()}}}
 			sp := &Spec{Dim: 2, Path: "reuse", Renderer: rd, Cells: mc, Seq: []Spec{a, b, cc, a}}
 			st.reuse(sp, "reuse2/"+rd)
+			info := func(x Spec) Spec { x.InfoOnly = true; return x }
+			c3 := []float64{ctr[0] * 10, ctr[1]*10 + 3}
+			d := Spec{BBMin: []float64{c3[0] - 10, c3[1] - 7.5}, BBMax: []float64{c3[0] + 10, c3[1] + 7.5},
+				Field: &sk.Field{Kind: "diff", A: &sk.Field{Kind: "rect", C: c3, H: []float64{8, 6}}, B: &sk.Field{Kind: "circle", C: []float64{c3[0] + 8, c3[1] + 6}, R: 5}}}
+			c4 := []float64{ctr[0] - 0.5, ctr[1] + 0.125}
+			e := Spec{BBMin: []float64{c4[0] - 0.25, c4[1] - 0.25}, BBMax: []float64{c4[0] + 0.25, c4[1] + 0.25},
+				Field: &sk.Field{Kind: "circle", C: c4, R: 0.125 + 0.1*rng.Float()}}
+			sp = &Spec{Dim: 2, Path: "reuse", Renderer: rd, Cells: mc, Seq: []Spec{info(d), a, d, e, info(a), cc, info(e), info(d), b}}
+			st.reuse(sp, "reuse2-sizes/"+rd)
 		}
 	}
 }
